@@ -5,6 +5,7 @@ import (
 	"fmt"
 	"os"
 	"path/filepath"
+	"strings"
 	"sync"
 
 	"github.com/yuin/goldmark/ast"
@@ -178,4 +179,70 @@ func mustConvert(s *core.Sub, cv *core.Conv, doc []byte) (out []byte, ok bool) {
 		return nil, false
 	}
 	return out, true
+}
+
+// nest wrappers: inline containers that may enclose each other, block containers, and atoms. NestDocs enumerates every
+// document blockWrapper(inlineWrapper_1(...inlineWrapper_k(atom)...)) with k ≤ depth.
+var (
+	nestInline = []string{"[§](u)", "![§](u)", "*§*", "**§**", "_§_", "[§][r]", "~~§~~", "<b>§</b>"}
+	nestBlock  = []string{"§", "> §", "- §", "# §", "|§|\n|-|\n", "x[^1]\n\n[^1]: §", "§\n===\n"}
+	nestAtoms  = []string{"a", "[b](c)", "<http://x.y>", "![i](j)", "`k`", "[^1]", "www.a.bc", "a\\\nb"}
+)
+
+// NestDocs calls f with every nesting document up to the given inline depth; it returns how many there are.
+func NestDocs(depth int, f func(doc []byte)) int {
+	n := 0
+	var rec func(inner string, d int)
+	emit := func(inl string) {
+		for _, bw := range nestBlock {
+			doc := strings.Replace(bw, "§", inl, 1)
+			if strings.Contains(inl, "[r]") {
+				doc += "\n\n[r]: /r\n"
+			}
+			if strings.Contains(inl, "[^1]") && !strings.Contains(bw, "[^1]:") {
+				doc += "\n\n[^1]: fn\n"
+			}
+			f([]byte(doc))
+			n++
+		}
+	}
+	rec = func(inner string, d int) {
+		emit(inner)
+		if d == depth {
+			return
+		}
+		for _, w := range nestInline {
+			rec(strings.Replace(w, "§", inner, 1), d+1)
+		}
+	}
+	for _, a := range nestAtoms {
+		rec(a, 0)
+	}
+	return n
+}
+
+// nestSub runs fn on every nesting document under cfg as one sub-check.
+func nestSub(r *core.Run, name string, cfg core.Cfg, depth int, fn func(s *core.Sub, cv *core.Conv, w []byte)) {
+	var docs [][]byte
+	NestDocs(depth, func(d []byte) { docs = append(docs, append([]byte{}, d...)) })
+	s := r.Sub(name, fmt.Sprintf("every document B(W1(...Wk(atom))) with k ≤ %d inline wrappers Wi from %q, block wrapper B from %q and atom from %q (reference and footnote definitions appended when used), under %s", depth, nestInline, nestBlock, nestAtoms, cfg))
+	s.Planned = int64(len(docs))
+	s.Bound = fmt.Sprintf("inline nesting depth ≤%d: %d documents", depth, len(docs))
+	complete := core.ForEachIndex(len(docs), core.Workers(), func(w int) func(int) {
+		cv := core.NewConv(cfg)
+		return func(i int) {
+			fn(s, cv, docs[i])
+			s.Evals.Add(1)
+			s.Distinct(core.Hash(docs[i]))
+			if i%(len(docs)/5+1) == 0 {
+				s.AddSample(core.Q(docs[i]))
+			}
+		}
+	}, r.Expired)
+	if !complete {
+		s.Incomplete("internal deadline reached")
+	}
+	s.States.Store(s.Evals.Load())
+	s.Transitions.Store(s.Evals.Load())
+	s.Done()
 }
